@@ -768,6 +768,10 @@ func doReplay(ch *Check, path string) int {
 		fmt.Printf("replay %s: case %s holds (no violation)\n", path, r.Case.Printable())
 		return 0
 	}
-	fmt.Printf("VIOLATION property=%s replay=%s class=%q case=%s detail=%s\n", ch.ID, path, v.Class, trunc(v.Case.Printable(), 300), trunc(v.Detail, 600))
+	lim := 600
+	if os.Getenv("VERIF_FULL") != "" {
+		lim = 1 << 20
+	}
+	fmt.Printf("VIOLATION property=%s replay=%s class=%q case=%s detail=%s\n", ch.ID, path, v.Class, trunc(v.Case.Printable(), 300), trunc(v.Detail, lim))
 	return 1
 }
